@@ -3,9 +3,32 @@
 // map-order seam and simulated io.Reader.
 package simrt
 
-import (
-	"math/rand/v2"
-)
+// prng is a splitmix64 generator kept inside this package so that every access
+// is in //go:norace code: tasks of one simulated run share the tape, one at a
+// time, through hand-offs the race detector is deliberately not told about.
+type prng struct{ s uint64 }
+
+//go:norace
+func (p *prng) next() uint64 {
+	p.s += 0x9E3779B97F4A7C15
+	z := p.s
+	z = (z ^ (z >> 30)) * 0xBF58476D1CE4E5B9
+	z = (z ^ (z >> 27)) * 0x94D049BB133111EB
+	return z ^ (z >> 31)
+}
+
+//go:norace
+func (p *prng) intn(n int) int {
+	// rejection sampling for an unbiased value in [0,n)
+	un := uint64(n)
+	lim := ^uint64(0) - (^uint64(0) % un)
+	for {
+		v := p.next()
+		if v < lim {
+			return int(v % un)
+		}
+	}
+}
 
 // Draw is one recorded decision.
 type Draw struct {
@@ -18,7 +41,7 @@ type Draw struct {
 // values come from one PRNG; in replay mode they are read back positionally,
 // reduced modulo the bound, and 0 once the tape is exhausted.
 type Tape struct {
-	rng    *rand.Rand
+	rng    *prng
 	replay []int
 	pos    int
 	Rec    []Draw
@@ -26,7 +49,9 @@ type Tape struct {
 }
 
 func NewTape(seed uint64, caseNo uint64) *Tape {
-	return &Tape{rng: rand.New(rand.NewPCG(seed, caseNo*0x9E3779B97F4A7C15+0x1234567))}
+	p := &prng{s: seed*0xD6E8FEB86659FD93 ^ (caseNo+1)*0x9E3779B97F4A7C15}
+	p.next()
+	return &Tape{rng: p}
 }
 
 func ReplayTape(vals []int) *Tape {
@@ -55,7 +80,7 @@ func (t *Tape) Draw(label string, n int) int {
 		t.pos++
 	} else {
 		if n > 1 {
-			v = t.rng.IntN(n)
+			v = t.rng.intn(n)
 		}
 	}
 	if !t.NoRec {
